@@ -339,3 +339,25 @@ Print Assumptions C11_write_nil_translated.
 Print Assumptions C11_accessors_translated.
 Print Assumptions C11_array_semantics_translated.
 Print Assumptions C11_wire_roundtrip_translated.
+
+(* ---- phase 5: ALLOCATION of ReadFrom (the defect fixed in level/bitstorage.go: make([]uint64, Len) with the
+   peer-declared count before any long had arrived).  The make lengths are TRANSLATED from the fixed ReadFrom
+   (Gen/C11gen.v): first = c11_BitStorage_ReadFrom_make2 Len = min(Len, maxPreallocLongs) longs; the array grows to
+   c11_BitStorage_ReadFrom_make3 Len i = i + min(Len - i, i) only when every allocated long has been read (the
+   test i == len(b.data) of the translated loop, which C11_read_translated is proved against).  In every
+   reachable state (a longs allocated, r longs read) of a read that declares n longs: r <= a <= n, and a <= 1024
+   or a <= 2 r - nothing is allocated in proportion to a declared count that the stream has not backed. *)
+Theorem C11_read_alloc_bounded : forall n : Z, (0 <= n < 2 ^ 31)%Z -> forall a r : Z,
+  C11_tie_io.rd_areach C11gen.c11_BitStorage_ReadFrom_make2 C11gen.c11_BitStorage_ReadFrom_make3 n a r ->
+  (0 <= r <= a)%Z /\ (a <= n)%Z /\ (a <= 1024 \/ a <= 2 * r)%Z.
+Proof. exact C11_tie_io.read_alloc_bounded. Qed.
+Example C11_ex_alloc :   (* 2^31-1 longs declared: 1024 allocated before any byte, 2048 once 1024 have arrived *)
+  C11_tie_io.rd_areach C11gen.c11_BitStorage_ReadFrom_make2 C11gen.c11_BitStorage_ReadFrom_make3 2147483647 1024 0 /\
+  C11gen.c11_BitStorage_ReadFrom_make3 2147483647 1024 = 2048%Z /\
+  C11gen.c11_BitStorage_ReadFrom_make3 1500 1024 = 1500%Z /\
+  C11gen.c11_BitStorage_ReadFrom_make2 7 = 7%Z.
+Proof.
+  split; [exact (C11_tie_io.ra_init C11gen.c11_BitStorage_ReadFrom_make2 C11gen.c11_BitStorage_ReadFrom_make3 2147483647)|].
+  split; [vm_compute; reflexivity|]. split; vm_compute; reflexivity.
+Qed.
+Print Assumptions C11_read_alloc_bounded.
